@@ -264,7 +264,20 @@ func runC04(r *Run) {
 			mkPacket(tData, bodyData([]byte("x"))),
 			mkPacket(tClose, nil),
 		}
-		res := runTunnelAPIHdr(kind, gws, reads, listeners, "X-Forwarded-For: "+useXFF+"\r\n")
+		// on the legacy transport the two legs are separate requests: every fourth legacy case sends
+		// the RDG_OUT_DATA leg from the other address. The token is presented on the IN leg, whose
+		// address is the one that counts
+		outXFF := useXFF
+		if kind == "legacy" && i%8 >= 4 {
+			if same {
+				outXFF = "192.0.2.51"
+			} else {
+				outXFF = "192.0.2.50"
+			}
+			legacyInHdr = "X-Forwarded-For: " + useXFF + "\r\n"
+		}
+		res := runTunnelAPIHdr(kind, gws, reads, listeners, "X-Forwarded-For: "+outXFF+"\r\n")
+		legacyInHdr = ""
 		if res.inconclusive != "" || (kind == "legacy" && len(res.pkts) == 0) {
 			r.Inconclusive()
 			continue
@@ -279,7 +292,7 @@ func runC04(r *Run) {
 				chanStatus = hx(p[8:12])
 			}
 		}
-		rep := fmt.Sprintf("transport=%s verifyclientip=%v token issued to 192.0.2.50, presented from X-Forwarded-For %s\nresponses: %s\nbackend connections: %d\n", kind, verify, useXFF, pktsCanon(res.pkts), res.hostConns)
+		rep := fmt.Sprintf("transport=%s verifyclientip=%v token issued to 192.0.2.50, presented from X-Forwarded-For %s (the RDG_OUT_DATA leg of a legacy tunnel from %s)\nresponses: %s\nbackend connections: %d\n", kind, verify, useXFF, outXFF, pktsCanon(res.pkts), res.hostConns)
 		if dialed && !want {
 			r.Violation("c04-tunnel-bound", "a tunnel presenting a token from another client address reached the backend", rep)
 		} else if !want && chanStatus != "da590780" {
